@@ -5,13 +5,16 @@ Case: {"type": T, "values": [v, ...], "cut": k | None, "rep": r (optional, defau
   T in INTEGER DOUBLE DECIMAL VARCHAR BOOLEAN DATE TIMESTAMP ARRAY STRUCT UNTYPED.
   The frame has one column "c" of that type (UNTYPED: a plain name schema) holding `values`
   repeated `rep` times.  Values are stored in a form the oracle can compute with exactly:
-    INTEGER   int
-    DOUBLE    int m  = the binary64 nearest to m / 10**6        (["nan"] = NaN)
-    DECIMAL   [unscaled, scale]  = Decimal(unscaled).scaleb(-scale), 0 <= scale <= 6
+    INTEGER   int | ["bool", 0|1] = Python False / True (an int subclass the schema accepts in an INTEGER column)
+    DOUBLE    int m  = the binary64 nearest to m / 10**6        (["nan"] = NaN, ["-0"] = -0.0,
+              ["npf", m] = numpy.float64 of the same number: a float subclass instance)
+    DECIMAL   [unscaled, scale]  = Decimal(unscaled).scaleb(-scale), 0 <= scale <= 6; ["-0", scale] = Decimal('-0').scaleb(-scale)
     VARCHAR   str
     BOOLEAN   bool
     DATE      int days since 1970-01-01
-    TIMESTAMP int microseconds since 1970-01-01T00:00:00
+    TIMESTAMP int microseconds since 1970-01-01T00:00:00 (naive datetime) |
+              ["tz", wall, off] = offset-aware datetime whose wall-clock reading is `wall` microseconds since
+              1970-01-01T00:00:00 and whose tzinfo is UTC+off minutes (its instant is wall - off minutes)
     ARRAY     list of ints,  STRUCT  dict str -> int
     UNTYPED   int | str | ["nan"]
   and None is a null everywhere.
@@ -46,7 +49,11 @@ LEVEL_TEXT = ("Machine-checked Coq theorems, for every column (list of optional 
               "implementation's own output. Round 2: one frame object over time is part of the model (operations DataFrame.append and "
               "DataFrame.profile; theorem: every read returns the profile of the rows the frame holds at that moment) and of every case "
               "(profile, append, profile ... on one object, replayed in the model and judged clause by clause by the oracle); text "
-              "longer than 64 characters goes through model and oracle (the sketch sees the whole strings).")
+              "longer than 64 characters goes through model and oracle (the sketch sees the whole strings). Round 4: cells as Python holds "
+              "them are part of the model - (raw, shift, form): offset-aware datetimes (wall-clock reading and UTC offset; value = the UTC "
+              "instant floored to the second, computed in Coq) and equal values that print differently (0.0 / -0.0, Decimal 0 / -0); "
+              "theorems: statistics of the cells = statistics of their values, extremes = least / greatest value, distinct count = "
+              "number of values whatever the forms, additivity.")
 LEVEL_NOTE = ("Trusted: Coq kernel + vm_compute; the hand-written model; numbers modelled as exact fixed-point integers (the generator "
               "keeps DOUBLE/DECIMAL values on a 10^-6 grid, where binary64 rounding preserves order, equality, truncation and the %f "
               "rendering); xxhash and numpy.histogram enter as oracle tables recomputed by the harness (theorems carry 'histogram counts "
@@ -58,8 +65,8 @@ LEVEL_NOTE = ("Trusted: Coq kernel + vm_compute; the hand-written model; numbers
               "the list of rows (append = snoc); other DataFrame mutators are not modelled.")
 DESIGN_REF = "DESIGN.md section 8, C15"
 COQ_IMPORTS = "From Orso Require Import Model.C15."
-COQ_CHECKS = {"ord": "c15_check_ord", "text": "c15_check_text", "bool": "c15_check_bool", "plain": "c15_check_plain"}
-COQ_SHOW = {"ord": "c15_show_ord", "text": "c15_show_text", "bool": "c15_show_bool", "plain": "c15_show_plain"}
+COQ_CHECKS = {"ord": "c15_check_ord", "ordx": "c15_check_ordx", "text": "c15_check_text", "bool": "c15_check_bool", "plain": "c15_check_plain"}
+COQ_SHOW = {"ord": "c15_show_ord", "ordx": "c15_show_ordx", "text": "c15_show_text", "bool": "c15_show_bool", "plain": "c15_show_plain"}
 RULE = ("one-column frames of every supported type (INTEGER, DOUBLE, DECIMAL, VARCHAR, BOOLEAN, DATE, TIMESTAMP, ARRAY, STRUCT, untyped), "
         "1..60 rows (plus frames above the 25000-row batch size built by repetition), nulls anywhere incl. all-null and no-null, "
         "shapes constant / sorted / reverse-sorted / unsorted / few-distinct / many-distinct (above the sketch and frequent-value sizes), "
@@ -69,6 +76,10 @@ RULE = ("one-column frames of every supported type (INTEGER, DOUBLE, DECIMAL, VA
         "exhaustive stream; 0 = created empty), .profile read, grown by DataFrame.append, read again (30% of the random cases: 1-3 "
         "reads on the way, positions may repeat), the last read compared field by field with the frame built at once; VARCHAR values "
         "longer than 64 characters that share / do not share their first 64 characters (12% of the text pool + corpus + boundary stream); "
+        "round 4: half of the DOUBLE / DECIMAL / INTEGER / TIMESTAMP columns get 20-100% of their cells replaced by an EQUAL value in "
+        "another form (-0.0 for 0.0, Decimal('-0'), another DECIMAL scale, numpy.float64, True / False for 1 / 0, the same instant as an "
+        "offset-aware datetime at one of 12 fixed or a random UTC offset in -23:59..+23:59); exhaustive alphabets with -0.0, Decimal -0 "
+        "and offset-aware datetimes; text pool with non-NFC, case-folding and whitespace variants; "
         "a case is non-trivial when the column has a non-null value; distinct by canonical JSON")
 TRUSTED = [
     "C15 model (coq/Model/C15.v): numbers as exact fixed-point integers z/scale with int() = Z.quot; the harness maps binary64 / Decimal / "
@@ -78,6 +89,9 @@ TRUSTED = [
     "numpy.min/max, Python str order = code point order, numpy datetime64[s] conversion = floor to the second",
     "oracle tables: xxh32(str(v).encode()).intdigest() and numpy.histogram(sample, bins=50) are recomputed by the harness and handed to the model",
     "not modelled: distogram load/merge inside ColumnProfile.__add__ (property C13), estimate_cardinality on a full sketch (binary64 division)",
+    "cells (round 4): the harness maps a datetime to (wall-clock microseconds, UTC offset in microseconds) and a number to (fixed-point "
+    "value, form: 1 = negative zero); the conversion to the value (subtract the offset, floor to the second) and the choice of the "
+    "first-seen form for the sketch and the listed frequent values are the model's; xxh32 of the text of every (value, form) is an oracle table",
 ]
 ASSUMPTIONS = [
     "numpy.histogram: the bin counts sum to the sample size (premise of C15_histogram_mass; checked on every case by the oracle)",
@@ -172,13 +186,21 @@ def py_value(t, v):
     if v is None:
         return None
     if t == "INTEGER":
+        if isinstance(v, list):
+            return bool(v[1])
         return int(v)
     if t == "DOUBLE":
         if is_nan(v):
             return float("nan")
+        if v == ["-0"]:
+            return -0.0
+        if isinstance(v, list):
+            import numpy
+
+            return numpy.float64(float(Fraction(v[1], MICRO)))
         return float(Fraction(v, MICRO))
     if t == "DECIMAL":
-        return decimal.Decimal(v[0]).scaleb(-v[1])
+        return decimal.Decimal(v[0]).scaleb(-v[1])          # Decimal("-0") keeps its sign
     if t == "VARCHAR":
         return v
     if t == "BOOLEAN":
@@ -186,6 +208,8 @@ def py_value(t, v):
     if t == "DATE":
         return EPOCH_D + datetime.timedelta(days=v)
     if t == "TIMESTAMP":
+        if isinstance(v, list):
+            return (EPOCH_T + datetime.timedelta(microseconds=v[1])).replace(tzinfo=datetime.timezone(datetime.timedelta(minutes=v[2])))
         return EPOCH_T + datetime.timedelta(microseconds=v)
     if t == "ARRAY":
         return list(v)
@@ -200,16 +224,35 @@ def exact(t, v):
     """The exact mathematical value of a non-null cell as (fixed-point integer, scale): value = z / scale.
     Instants are epoch seconds (floor)."""
     if t == "INTEGER":
-        return int(v)
+        return int(v[1]) if isinstance(v, list) else int(v)
     if t == "DOUBLE":
-        return int(v)              # micro units
+        if v == ["-0"]:
+            return 0
+        return int(v[1]) if isinstance(v, list) else int(v)              # micro units
     if t == "DECIMAL":
-        return int(v[0]) * 10 ** (6 - v[1])
+        return int(v[0]) * 10 ** (6 - v[1])                 # int("-0") == 0
     if t == "DATE":
         return int(v) * 86400
     if t == "TIMESTAMP":
+        if isinstance(v, list):
+            # the instant of an offset-aware datetime, by datetime arithmetic (independent of the model's raw - shift)
+            return (py_value(t, v) - EPOCH_T.replace(tzinfo=datetime.timezone.utc)) // datetime.timedelta(seconds=1)
         return int(v) // MICRO     # floor
     raise KeyError(t)
+
+
+def form_of(t, v):
+    """How an equal value prints differently: 1 = negative zero (str gives '-0.0'), else 0."""
+    if t == "DOUBLE" and v == ["-0"]:
+        return 1
+    if t == "DECIMAL" and v[0] == "-0":
+        return 1
+    return 0
+
+
+def is_special(t, v):
+    """Cells the plain (value-only) Coq stream cannot express: a form, or a wall-clock reading with an offset."""
+    return v is not None and (form_of(t, v) == 1 or t == "TIMESTAMP")
 
 
 def scale_of(t):
@@ -512,11 +555,11 @@ def _floats_seen(t, data):
 
 def _guard(t, cells):
     data = [v for v in cells if v is not None]
-    if t == "INTEGER" and any(v == -2 ** 63 for v in data):
+    if t == "INTEGER" and any(exact(t, v) == -2 ** 63 for v in data):
         return "F-C15-8"
     if t == "DOUBLE" and any(is_nan(v) for v in data):
         return "F-C15-10"
-    if t == "INTEGER" and any(abs(v) > 2 ** 53 for v in data):
+    if t == "INTEGER" and any(abs(exact(t, v)) > 2 ** 53 for v in data):
         return "F-C15-6"
     if t in ORD_TYPES and data and _hist_unbinnable(_floats_seen(t, data)):
         return "F-C15-7"
@@ -702,6 +745,7 @@ def _obs_term(case, obs, val, vtype, edges=None):
 
 
 FALSE_CASE = {
+    "ordx": "(true, (1)%Z, (1)%Z, ([] : list (option xcell)), 1%nat, ([] : list (Z * N * N)), ([] : list (N * Z)), mko (empty_profile (1)%Z (0)%Z) None [] (0)%Z [] None)",
     "ord": "(true, (1)%Z, ([] : list (option Z)), 1%nat, ([] : list (Z * N)), ([] : list (N * Z)), mko (empty_profile (1)%Z (0)%Z) None [] (0)%Z [] None)",
     "text": "(([] : list (option (list N))), 1%nat, [], mko (empty_profile (1)%Z (0)%Z) None [] (0)%Z [] None)",
     "bool": "(([] : list (option bool)), 1%nat, mko (empty_profile (1)%Z (0)%Z) None [] (0)%Z [] None)",
@@ -726,6 +770,42 @@ def to_coq(case, obs):
         return (st, FALSE_CASE[st])     # the model never raises on a non-empty column: a guaranteed mismatch
     vals = case["values"]
     rep = int(case.get("rep", 1))
+    if st == "ord" and any(is_special(t, v) for v in vals):
+        # cells (raw, shift, form): the model itself converts wall-clock readings with an offset to instants, floors
+        # them to the second, and decides which of several equal values that print differently the sketch hashes
+        st = "ordx"
+        sc = scale_of(t)
+        unit = MICRO if t == "TIMESTAMP" else 1
+        cells = []
+        for v in vals:
+            if v is None:
+                cells.append("None")
+            elif t == "TIMESTAMP":
+                raw, shift = (v[1], v[2] * 60 * MICRO) if isinstance(v, list) else (v, 0)
+                cells.append("(Some %s)" % L.pair(L.Z(raw), L.Z(shift), L.N(0)))
+            else:
+                cells.append("(Some %s)" % L.pair(L.Z(exact(t, v)), L.Z(0), L.N(form_of(t, v))))
+        data = [v for v in vals if v is not None]
+        edges = hist = None
+        if rep == 1 and data:
+            hist = _np_hist(t, data)
+            edges = [e for e, _ in hist]
+        def listed(s):
+            # a listed frequent value as the model has it: (value, form) - '-0' is the value 0 in its negative-zero form
+            z = _render_to_exact(t, s)
+            return None if z is None else L.pair(L.Z(z), L.N(1 if z == 0 and s.startswith("-") else 0))
+
+        o = _obs_term(case, obs, listed, "(Z * N)", edges)
+        if o is None:
+            return (st, FALSE_CASE[st])
+        hashes = {}
+        for v in data:
+            hashes[(exact(t, v), form_of(t, v))] = _hash32(_seen_value(t, v))
+        term = "(%s, %s, %s, (%s : list (option xcell)), %s, %s, %s, %s)" % (
+            L.boolean(t in NUM_TYPES), L.Z(sc), L.Z(unit), L.lst(cells), L.nat(rep),
+            "(%s : list (Z * N * N))" % L.lst(L.pair(L.Z(k[0]), L.N(k[1]), L.N(h)) for k, h in sorted(hashes.items())),
+            "(%s : list (N * Z))" % L.lst(L.pair(L.N(i), L.Z(c)) for i, (e, c) in enumerate(hist or [])), o)
+        return (st, term)
     if st == "ord":
         sc = scale_of(t)
         col = [None if v is None else exact(t, v) for v in vals]
@@ -775,7 +855,10 @@ def to_coq(case, obs):
 # ----------------------------------------------------------------------------- generators
 WORDS = ["", "a", "b", "ab", "abc", "abd", "b\u00e9", "\u00e9", "\u00e9a", "zz", "z", "Z", "0", " ", "\x00", "a\x00", "\u20ac", "\u20acuro",
          "\U0001f600", "\U0001f600!", "\uffff", "\U00010000", "\x7f", "\x80", "\u07ff", "\u0800", "abcdefgh", "abcdefghi", "abcdefgz",
-         "abcdefg\u00e9", "abcdefg", "\u00ff\u00ff\u00ff\u00ff", "\U0010ffff", "na\u00efve", "\u65e5\u672c\u8a9e", "\u65e5\u672c", "x" * 64, "x" * 63 + "y"]
+         "abcdefg\u00e9", "abcdefg", "\u00ff\u00ff\u00ff\u00ff", "\U0010ffff", "na\u00efve", "\u65e5\u672c\u8a9e", "\u65e5\u672c", "x" * 64, "x" * 63 + "y",
+         # round 4: strings a normalising / case-folding step would merge or reorder (each is a distinct value here)
+         "e\u0301", "\u00e9t\u00e9", "e\u0301te\u0301", "\u00df", "ss", "SS", "\u1e9e", "\u03c3", "\u03c2", "\u03a3", "i", "I", "\u0131", "\u0130",
+         "\u017f", "s", "K", "\u212a", "k", "\ufb01", "fi", "A", "a ", " a", "a\t"]
 
 
 LONG_STEMS = ["https://example.com/a/rather/long/and/boring/common/prefix/of/a/path/", "x" * 70,
@@ -789,8 +872,8 @@ def _pool(rng, t, size):
     seen = set()
 
     def key(v):
-        if t == "DECIMAL":
-            return v[0] * 10 ** (6 - v[1])
+        if t in ORD_TYPES and not is_nan(v):
+            return exact(t, v)
         if t in ("ARRAY", "STRUCT"):
             return repr(v)
         return v
@@ -801,11 +884,11 @@ def _pool(rng, t, size):
         if t == "INTEGER":
             v = rng.choice([0, 1, -1, 2, -2, 7, -7, rng.randint(-50, 50), rng.randint(-10 ** 6, 10 ** 6), rng.randint(-2 ** 40, 2 ** 40)])
         elif t == "DOUBLE":
-            v = rng.choice([0, 500000, -500000, 1500000, -1500000, 999999, -999999, 1000000, -1000000, 15625 * rng.randint(-640, 640),
+            v = rng.choice([0, 0, 500000, -500000, 1500000, -1500000, 999999, -999999, 1000000, -1000000, 15625 * rng.randint(-640, 640),
                             rng.randint(-5 * 10 ** 6, 5 * 10 ** 6), rng.randint(-10 ** 10, 10 ** 10)])
         elif t == "DECIMAL":
             sc = rng.choice([0, 1, 2, 6])
-            v = [rng.choice([0, 1, -1, 15, -15, 99, -99, rng.randint(-1000, 1000), rng.randint(-10 ** 7, 10 ** 7)]), sc]
+            v = [rng.choice([0, 0, 1, -1, 15, -15, 99, -99, rng.randint(-1000, 1000), rng.randint(-10 ** 7, 10 ** 7)]), sc]
         elif t == "VARCHAR":
             r_ = rng.random()
             if r_ < 0.12:
@@ -837,14 +920,48 @@ def _pool(rng, t, size):
 
 
 def _sort_key(t):
-    if t == "DECIMAL":
-        return lambda v: v[0] * 10 ** (6 - v[1])
+    if t in ORD_TYPES:
+        return lambda v: exact(t, v)
     if t in ("ARRAY", "STRUCT", "UNTYPED"):
         return repr
     return lambda v: v
 
 
+OFFSETS = [0, 60, -60, 330, -480, 765, -720, 840, 1, -1, 1439, -1439]
+
+
+def _reform(rng, t, v):
+    """An EQUAL value in another form (same number / same instant): negative zero, a float / int subclass instance,
+    another DECIMAL scale, the same instant read on a clock with another UTC offset."""
+    if v is None or isinstance(v, list) and t != "DECIMAL":
+        return v
+    if t == "DOUBLE":
+        return ["-0"] if v == 0 and rng.random() < 0.6 else ["npf", v]
+    if t == "DECIMAL":
+        if v[0] == 0:
+            return ["-0", rng.choice([0, 1, 2, 6])]
+        if isinstance(v[0], int) and v[1] < 6 and rng.random() < 0.5:
+            return [v[0] * 10, v[1] + 1]
+        return v
+    if t == "INTEGER":
+        return ["bool", v] if v in (0, 1) else v
+    if t == "TIMESTAMP":
+        if abs(v) > 2 * 10 ** 17:       # keep the wall-clock reading inside datetime's range
+            return v
+        off = rng.choice(OFFSETS + [rng.randint(-1439, 1439)])
+        return ["tz", v + off * 60 * MICRO, off]
+    return v
+
+
 def _column(rng, t, n):
+    vals, shape, nulls = _column0(rng, t, n)
+    if t in ("DOUBLE", "DECIMAL", "INTEGER", "TIMESTAMP") and rng.random() < 0.5:
+        p = rng.choice([0.2, 0.5, 1.0])
+        vals = [_reform(rng, t, v) if rng.random() < p else v for v in vals]
+    return vals, shape, nulls
+
+
+def _column0(rng, t, n):
     shape = rng.choice(["constant", "sorted", "reverse", "unsorted", "unsorted", "few", "many", "runs"])
     if shape == "constant":
         vals = _pool(rng, t, 1) * n
@@ -953,6 +1070,21 @@ def corpus():
     yield {"type": "STRUCT", "values": [{"a": 1}, None, {"a": 2}], "cut": 1, "reads": [1, 2]}
     yield {"type": "UNTYPED", "values": [1, ["nan"], None, "a", 2], "cut": 2, "reads": [2, 4]}
     yield {"type": "INTEGER", "values": list(range(40)), "cut": 20, "reads": [10, 31, 32, 33]}
+    # round 4: equal values that print differently (0.0 / -0.0, Decimal 0 / -0 / -0.00, True / 1), offset-aware datetimes
+    yield {"type": "DOUBLE", "values": [0, None, 1500000, ["-0"], -2250000, 0, ["-0"]], "cut": 3}
+    yield {"type": "DOUBLE", "values": [["-0"], 0, ["-0"], None], "cut": 1}
+    yield {"type": "DOUBLE", "values": [["-0"]], "cut": None}
+    yield {"type": "DOUBLE", "values": [["npf", 1500000], 1500000, ["npf", 0], ["-0"]], "cut": 2, "reads": [1, 3]}
+    yield {"type": "DECIMAL", "values": [[0, 0], ["-0", 0], None, [75, 1], ["-0", 1]], "cut": 2}
+    yield {"type": "DECIMAL", "values": [["-0", 2], [0, 6], [0, 0]], "cut": 1, "reads": [0, 2]}
+    yield {"type": "INTEGER", "values": [["bool", 1], 1, 0, ["bool", 0], 2, None], "cut": 3}
+    h = 3600 * MICRO
+    leap = 19782 * 86400 * MICRO                      # 2024-02-29T00:00:00
+    yield {"type": "TIMESTAMP", "values": [["tz", leap + 23 * h + h // 2, -480], None, ["tz", leap + 12 * h, 0], ["tz", leap - 60 * 86400 * MICRO + 2 * h, 330],
+                                           ["tz", leap + 23 * h + h // 2, -480], leap + 12 * h, None], "cut": 3}
+    yield {"type": "TIMESTAMP", "values": [["tz", 0, 60], ["tz", 0, -60], 0, ["tz", h, 60]], "cut": 2, "reads": [1, 2]}
+    yield {"type": "TIMESTAMP", "values": [["tz", -500000, 0], ["tz", 59 * MICRO + 500000, 1], ["tz", -1, -1439], ["tz", 1, 1439]], "cut": 1}
+    yield {"type": "TIMESTAMP", "values": [["tz", leap + i * h, (i * 97) % 1440 - 720] for i in range(40)], "cut": 20}
     # frames above the 25000-row batch size (from_dataframe adds the batch profiles itself)
     b = PC_batch()
     if b <= 30000 and b % 8 == 0:
@@ -975,8 +1107,11 @@ def exhaustive(tier):
 
     L_ = 3 if tier == "quick" else 5
     alpha = {
-        "INTEGER": [None, 0, -3, 2], "DOUBLE": [None, 0, -500000, 1500000], "VARCHAR": [None, "", "a", "\u00e9"],
+        "INTEGER": [None, 0, -3, 2], "DOUBLE": [None, 0, -500000, 1500000, ["-0"]], "VARCHAR": [None, "", "a", "\u00e9"],
         "BOOLEAN": [None, True, False], "DATE": [None, 0, -1], "UNTYPED": [None, ["nan"], 1], "ARRAY": [None, [], [1]],
+        # round 4: the same instant naive and at +01:00, an instant half a second before the epoch written at -00:01
+        "TIMESTAMP": [None, 0, ["tz", 3600 * MICRO, 60], ["tz", -60 * MICRO - 500000, -1]],
+        "DECIMAL": [None, [0, 0], ["-0", 2]],
     }
 
     def it():
@@ -986,7 +1121,7 @@ def exhaustive(tier):
                     for k in ([None] if n == 1 else range(1, n)):
                         yield {"type": t, "values": list(vals), "cut": k}
 
-    return it(), f"all columns of 1..{L_} rows over a null + 2-3 value alphabet for INTEGER, DOUBLE, VARCHAR, BOOLEAN, DATE, ARRAY, untyped, every cut designated in turn"
+    return it(), f"all columns of 1..{L_} rows over a null + 2-3 value alphabet for INTEGER, DOUBLE (with -0.0), DECIMAL (with -0), VARCHAR, BOOLEAN, DATE, TIMESTAMP (offset-aware datetimes), ARRAY, untyped, every cut designated in turn"
 
 
 def generate(rng, tier):
@@ -1069,6 +1204,16 @@ def classify(case, obs):
             yield "text-longer-than-64"
             if len(set(data)) != len({s[:PC().SIXTY_FOUR_BYTES] for s in data}):
                 yield "text-distinct-values-sharing-first-64"
+    if any(v is not None and t in ORD_TYPES and not is_nan(v) and form_of(t, v) == 1 for v in cells):
+        yield "negative-zero"
+        if any(v is not None and not is_nan(v) and form_of(t, v) == 0 and exact(t, v) == 0 for v in cells):
+            yield "zero-in-both-signs"
+    if t == "TIMESTAMP" and any(isinstance(v, list) for v in cells):
+        yield "offset-aware-datetime"
+        if any(isinstance(v, list) and v[2] != 0 for v in cells):
+            yield "offset-aware-datetime-nonzero-offset"
+    if any(isinstance(v, list) and v and v[0] in ("npf", "bool") for v in cells):
+        yield "subclass-instance"
     rs = session_reads(case)
     yield "session-reads:" + str(min(len(rs), 3)) + ("+" if len(rs) > 3 else "")
     if rs[0] == 0:
